@@ -44,7 +44,7 @@ theorem created_closed : Closed [] (created cfgOfSource) := by
   have htrees : (created cfgOfSource).pd.trees = [] := by decide
   refine ⟨⟨by decide, ⟨by decide, by decide⟩⟩, [], 0, by rfl, ?_, ?_, ?_⟩
   · exact ⟨by decide, by decide, by decide, by decide, by decide, List.Pairwise.nil, by intro tx h; simp at h⟩
-  · exact ⟨⟨by decide, by decide, by decide, by decide, ⟨[3, 4], by decide, by decide, by decide⟩⟩,
+  · exact ⟨⟨by decide, by decide, by decide, by decide, by decide, ⟨[3, 4], by decide, by decide, by decide⟩⟩,
       by decide, by decide, by decide, by intro i hi; rw [hlen] at hi; omega⟩
   · refine ⟨by intro k hk; simp [scan] at hk, by rw [hsegs]; intro s hs; simp at hs,
       by rw [htrees]; intro t ht; simp at ht, by intro e; simp [allEdges, logRuns, scan], by intro q hq; simp [logRuns] at hq,
@@ -138,8 +138,34 @@ theorem crash_prefix (rounds : List Round) (hok : FreshHist [] rounds)
     ∃ T m fs', Spec.Admissible [] (rounds.map Round.obs) T ∧
       recover cfgOfSource (afterRounds cfgOfSource (created cfgOfSource) rounds) = .ok (m, fs') ∧
       Spec.Content.same (content m fs'.pv) (Spec.run T) :=
-  crash_recover (cfg := cfgOfSource) source_ok.1 rounds [] (created cfgOfSource) [] created_closed (by simp [allNodes])
-    (histOK_of_fresh source_ok.2.2.2.1 rounds _ _ hok hc)
+  crash_recover (cfg := cfgOfSource) source_ok.1 source_ok.2.2.1 source_ok.2.1 rounds [] (created cfgOfSource) []
+    (Or.inl created_closed) (by simp [allNodes]) (histOK_of_fresh source_ok.2.2.2.1 rounds _ _ hok hc)
+
+/-- **C02 (all histories, including the creation)**: the same starting from files that do not
+    exist yet: the first `open` creates the database (page-file header and bitmap, catalog page,
+    the two reserved index roots — 36 I/O steps) and may die at ANY of these steps in ANY crash
+    mode, any number of times in a row: every crash image is a *nascent* database on which the
+    next `open` completes the creation (`Proofs/CrashCreate`), and from then on everything is as
+    in `crash_prefix`. -/
+theorem crash_prefix_creation (rounds : List Round) (hok : FreshHist [] rounds)
+    (hc : CondHist cfgOfSource ({} : FS) rounds) :
+    ∃ T m fs', Spec.Admissible [] (rounds.map Round.obs) T ∧
+      recover cfgOfSource (afterRounds cfgOfSource ({} : FS) rounds) = .ok (m, fs') ∧
+      Spec.Content.same (content m fs'.pv) (Spec.run T) :=
+  crash_recover (cfg := cfgOfSource) source_ok.1 source_ok.2.2.1 source_ok.2.1 rounds [] ({} : FS) []
+    (Or.inr ⟨rfl, nascent_empty⟩) (by simp [allNodes]) (histOK_of_fresh source_ok.2.2.2.1 rounds _ _ hok hc)
+
+/-- **C02 (creation, every step)**: `open` on a nascent database — never created, or cut short at
+    any step of an earlier creation — succeeds; after EVERY prefix of its I/O steps, in EVERY crash
+    mode, the page file is nascent again and the log is empty; the handle it returns satisfies the
+    invariant for the empty transaction list. -/
+theorem create_every_step {fs : FS} (hn : Nascent fs) :
+    (∀ n mode, Nascent ((fs.steps ((ioSteps (openA cfgOfSource fs.pv fs.wf)).take n)).crash mode)) ∧
+    ∃ m fs', recover cfgOfSource fs = .ok (m, fs') ∧ Spec.Content.same (content m fs'.pv) (Spec.run []) := by
+  obtain ⟨hfail, sa, _, hinv, _⟩ := create_safe (cfg := cfgOfSource) source_ok.2.2.1 source_ok.2.1 fs hn.flat.pj hn.flat.quiet hn.log hn.page
+  obtain ⟨o1, o2, o3⟩ := run_none (openA cfgOfSource fs.pv fs.wf) fs {}
+  exact ⟨fun n mode => ⟨crash_flat _ mode, (sa n mode).2, (sa n mode).1⟩,
+    _, _, by simp only [recover, o3, hfail, o1, o2], content_of_inv hinv⟩
 
 /-! non-vacuity: a concrete four-incarnation history that meets the hypotheses: a power loss in
     the middle of the node-table phase of a two-node commit (unsynced meta write persisted); a
@@ -162,6 +188,21 @@ example : (match recover cfgOfSource (afterRounds cfgOfSource (created cfgOfSour
     | .ok (m, fs) => some (content m fs.pv)
     | .error _ => none) =
     some ⟨[1001, 2001, 2002, 3001, 4001], [4000, 1000, 2000], [10000, 20000, 30000, 40000]⟩ := by decide
+
+/-! non-vacuity of the creation theorem: the process dies three times inside the creation of the
+    database (power loss at steps 10, 25 and 3 of the respective `open`, some unsynced writes kept),
+    the fourth incarnation completes it and commits -/
+def ex_creation : List Round :=
+  [⟨[], .inOpen 10, .power [.keep, .drop] 0 false⟩, ⟨[], .inOpen 25, .power [.drop, .keep, .keep] 0 false⟩,
+   ⟨[], .inOpen 3, .power [.drop, .keep, .keep] 0 false⟩, ⟨[.commit ex_tx1], .idle, .proc⟩]
+
+example : FreshHist [] ex_creation := by decide
+example : CondHist cfgOfSource ({} : FS) ex_creation := by decide
+example : (match recover cfgOfSource (afterRounds cfgOfSource ({} : FS) ex_creation) with
+    | .ok (m, fs) => some (content m fs.pv)
+    | .error _ => none) = some ⟨[1001], [1000], [10000]⟩ := by decide
+example : (afterRounds cfgOfSource ({} : FS) (ex_creation.take 2)).pd.hdr.catRoot = 3 ∧
+    (afterRounds cfgOfSource ({} : FS) (ex_creation.take 2)).pd.cat = some [4] := by decide
 
 /-! counterexamples -/
 
@@ -201,5 +242,48 @@ theorem counterexample_live_tree :
     (match recover cfgOfSource (afterRounds cfgOfSource (created cfgOfSource) live_tree_rounds) with
       | .ok (m, fs) => some ((content m fs.pv).props.contains 10000)
       | .error _ => none) = some false := by decide
+
+/-! ### leaf splits during property sinking (not covered by `crash_prefix`: hypothesis `NoSplit`)
+
+Demonstrated on the model with a small leaf capacity (`leafCap := 4`; the real capacity is 281, the
+thorough tier of the stream runs the same scenarios on the real engine with 150–350 properties):
+* a split in a NEW tree (first compaction) is harmless at every step — the tree is not reachable
+  before the manifest is durable;
+* a split of the LIVE leaf rewrites its left half IN PLACE and syncs it (with the next page
+  allocation) long before the manifest: from that write on, until the system transaction is
+  complete in the log, EVERY crash image — plain process death included — has lost the entries of
+  the right half except its first (the old manifest enters at the old root leaf, the cursor only
+  looks at slot 0 of the right sibling).  This is the known finding C01-live-tree-in-place; no
+  selection of unsynced writes avoids it once the sync has happened. -/
+
+def cfgSplit : Cfg := { cfgOfSource with leafCap := 4 }
+def split_tx0 : Tx := ⟨[1001], [], [10000, 10001, 10002, 10003, 10004, 10005]⟩
+def split_tx1 : Tx := ⟨[1001], [], [10000, 10001, 10002, 10003]⟩
+def split_tx2 : Tx := ⟨[2001], [], [20000]⟩
+
+def splitProps (rounds : List Round) : Option (List Nat) :=
+  match recover cfgSplit (afterRounds cfgSplit (created cfgSplit) rounds) with
+  | .ok (m, fs) => some (content m fs.pv).props
+  | .error _ => none
+
+/-- new tree, 6 properties, capacity 4 (two splits, 80 I/O steps): all six are readable after a
+    death at ANY step, by process death and by the power-loss selections tried here -/
+theorem split_new_tree_every_step :
+    (List.range 81).all (fun k =>
+      (splitProps [⟨[.commit split_tx0], .inCompact k, .proc⟩]).map List.length == some 6 &&
+      (splitProps [⟨[.commit split_tx0], .inCompact k, .power [.keep, .drop, .keep] 0 false⟩]).map List.length == some 6 &&
+      (splitProps [⟨[.commit split_tx0], .inCompact k, .power [.drop, .keep] 0 false⟩]).map List.length == some 6) = true := by
+  decide
+
+/-- live leaf with 4 entries, one more property sunk by the second compaction (split at step 21):
+    process death at step 20 loses nothing; process death at step 30 (after the in-place left half
+    was synced, before the manifest) has lost the acknowledged, already compacted 10003; once the
+    system transaction is in the log (step 44) everything is there again. -/
+theorem counterexample_live_split :
+    FreshHist [] [⟨[.commit split_tx1, .compact, .commit split_tx2], .inCompact 30, .proc⟩] ∧
+    splitProps [⟨[.commit split_tx1, .compact, .commit split_tx2], .inCompact 20, .proc⟩] = some [20000, 10000, 10001, 10002, 10003] ∧
+    splitProps [⟨[.commit split_tx1, .compact, .commit split_tx2], .inCompact 30, .proc⟩] = some [20000, 10000, 10001, 10002] ∧
+    splitProps [⟨[.commit split_tx1, .compact, .commit split_tx2], .inCompact 44, .proc⟩] = some [10000, 10001, 10002, 10003, 20000] := by
+  decide
 
 end Nervus.Props.C02
